@@ -63,7 +63,11 @@ def run_tlc(module, cfg, tag, workers=16, simulate=None, depth=None, seed=None, 
     shutil.rmtree(wd, ignore_errors=True)
     os.makedirs(wd)
     out_path = os.path.join(wd, "tlc.out")
-    cmd = ["java", "-XX:+UseParallelGC", "-Xss512m", "-Xmx" + heap, "-cp", JAR, "tlc2.TLC",
+    # TLC unpacks its standard modules into a fresh directory under java.io.tmpdir on every start: keep that inside the
+    # scratch directory of this run (removed below) instead of filling /tmp
+    jtmp = os.path.join(wd, "jtmp")
+    os.makedirs(jtmp)
+    cmd = ["java", "-XX:+UseParallelGC", "-Xss512m", "-Xmx" + heap, "-Djava.io.tmpdir=" + jtmp, "-cp", JAR, "tlc2.TLC",
            "-workers", str(workers), "-metadir", os.path.join(wd, "meta"),
            "-noGenerateSpecTE", "-config", cfg]
     if simulate:
@@ -94,6 +98,7 @@ def run_tlc(module, cfg, tag, workers=16, simulate=None, depth=None, seed=None, 
         except subprocess.TimeoutExpired:
             raise MachineryError("TLC timeout after %ss: %s %s" % (timeout, module, cfg))
     res.wall = time.time() - t0
+    shutil.rmtree(jtmp, ignore_errors=True)
     _parse(res, collect, print_file)
     # exhaustive runs print from several workers: the order of the emitted lines depends on thread scheduling.  Sort them,
     # so that what a driver samples with VERIF_SEED depends on the seed only (simulation runs are single-worker and
